@@ -1817,9 +1817,12 @@ size_t rtosc_scan_arg_val(const char* src,
                 //  => take it directly from there
                 if(skip_fmt(&src, "%*f (%n"))
                 {
-                    sscanf(src, " ... + 0x%8"PRIx64"p-32 s )%n",
-                           &secfracs, &rd);
+                    // the printer writes the fraction as a hex float
+                    // ("%a"), e.g. "0x1p-1" or "0x80000000p-32"
+                    rd = 0;
+                    sscanf(src, " ... + %f s )%n", &secfracsf, &rd);
                     src += rd;
+                    secfracs = rtosc_float2secfracs(secfracsf);
                 }
                 // float number, but not lossless?
                 //  => convert it to fractions of seconds
